@@ -328,6 +328,9 @@ fn run_case(st: &mut Stats, text: &[u8], entries: &[Entry], inc_dir: Option<&str
 
 const SOUP: [&str; 24] = ["(", ")", ".", "mod", "defun", "defun-inline", "defmacro", "defconstant", "include", "let", "assign", "lambda", "&rest", "@", "q", "qq", "unquote", "X", "1", "\"s\"", "0x10", ";c\n", "#(", "if"];
 
+/// indices into SOUP of the tokens the reader / assembler distinguish: ( ) . mod &rest @ q X 1 "s" 0x10 ;c #( if
+const SOUP_READER: [usize; 14] = [0, 1, 2, 3, 12, 13, 14, 17, 18, 19, 20, 21, 22, 23];
+
 fn soup_text(i: u64) -> Vec<u8> {
     let alpha: Vec<u8> = (0..SOUP.len() as u8).collect();
     let idx = strings_upto_get(&alpha, i);
@@ -514,6 +517,7 @@ fn replacements_of(t: &[u8]) -> Vec<Vec<u8>> {
 
 struct Plan {
     thorough: bool,
+    ill_scoped: Vec<Vec<u8>>,
     seed_replacements: Vec<Vec<u8>>,
     seed_mutants: Vec<Vec<u8>>,
     shipped_mutants: Vec<Vec<u8>>,
@@ -539,14 +543,15 @@ impl Plan {
         for m in mutants_of(b"(\n  (defconstant CREATE 51)\n  (defun-inline dbl (X) (* 2 X))\n  (defmacro twice (X) (qq (c (unquote X) (unquote X))))\n)", 1) {
             include_variants.push(m);
         }
-        Plan { thorough, seed_replacements, seed_mutants, shipped_mutants, include_variants }
+        Plan { thorough, ill_scoped: crate::scopemc::ill_scoped_texts(thorough).into_iter().map(|t| t.into_bytes()).collect(), seed_replacements, seed_mutants, shipped_mutants, include_variants }
     }
     fn spaces(&self) -> Vec<Space> {
         let t = self.thorough;
         vec![
             Space { name: "soup-all-entries".into(), bound: format!("every sequence of 0..{} tokens over the 24-token alphabet, all 13 text entry points", if t { 4 } else { 3 }), n: strings_upto_count(SOUP.len(), if t { 4 } else { 3 }), chunk: 200 },
-            Space { name: "soup-light-entries".into(), bound: format!("every sequence of exactly {} tokens, entry points assemble/cldb/repl/preprocess", if t { 5 } else { 4 }), n: (SOUP.len() as u64).pow(if t { 5 } else { 4 }), chunk: 3000 },
+            Space { name: "soup-light-entries".into(), bound: if t { "every sequence of exactly 5 tokens over the 24-token alphabet, entry points assemble/cldb/repl/preprocess".to_string() } else { "every sequence of exactly 4 tokens over the 14 reader-level tokens ( ) . mod &rest @ q X 1 \"s\" 0x10 ;c #( if, entry points assemble/cldb/preprocess".to_string() }, n: if t { (SOUP.len() as u64).pow(5) } else { (SOUP_READER.len() as u64).pow(4) }, chunk: 3000 },
             Space { name: "seed-mutations".into(), bound: "13 hand-written seed programs (one per construct family and dialect): the seed, every single-token deletion, duplication and adjacent swap, every truncation at every byte offset; all 13 text entry points".into(), n: self.seed_mutants.len() as u64, chunk: 25 },
+            Space { name: "ill-scoped-programs".into(), bound: "C10's exhaustively enumerated inline-cycle programs (every back edge of chains of <= 3 (4) inlines, plain / in a &rest tail / nested in a &rest tail) and assign-cycle / duplicate-binding programs, in cl21, strict-cl21 and cl23 (thorough: all sigils): library compile entry, unused-argument check, preprocessing, dependency listing, REPL".into(), n: self.ill_scoped.len() as u64, chunk: 40 },
             Space { name: "seed-replacements".into(), bound: "the same 13 seeds: every non-parenthesis token replaced by each of () 1 \"s\" X (a b) 0x1 (a form or value of the wrong kind in every position); library compile entry (dialect from the sigil), dependency listing, preprocessing; thorough: all text entry points".into(), n: self.seed_replacements.len() as u64, chunk: 60 },
             Space { name: "shipped-mutations".into(), bound: format!("sources under resources/tests (up to {} bytes, first {} by path): same token mutations, truncation at every {} byte; all entry points", if t { 6000 } else { 600 }, if t { 120 } else { 8 }, if t { "1st" } else { "7th" }), n: self.shipped_mutants.len() as u64, chunk: 25 },
             Space { name: "raw-bytes".into(), bound: format!("every byte string of length 0..2 and every string of length 3{} over the 31 byte-class representatives; deserialise, hex reader, assemble for all; classic compile and repl for the shortest strings (thorough: for all up to 2 bytes, repl for all)", if t { "..4" } else { "" }), n: bytes_upto_count(2) + (CLASS.len() as u64).pow(3) + if t { (CLASS.len() as u64).pow(4) } else { 0 }, chunk: 4000 },
@@ -558,10 +563,24 @@ impl Plan {
         match sub {
             "seed-mutations" => self.seed_mutants[i as usize].clone(),
             "seed-replacements" => self.seed_replacements[i as usize].clone(),
+            "ill-scoped-programs" => self.ill_scoped[i as usize].clone(),
             "shipped-mutations" => self.shipped_mutants[i as usize].clone(),
             "include-file-variants" => self.include_variants[i as usize].clone(),
             "soup-all-entries" => soup_text(i),
-            "soup-light-entries" => soup_text(strings_upto_count(SOUP.len(), if self.thorough { 4 } else { 3 }) + i),
+            "soup-light-entries" => {
+                if self.thorough {
+                    soup_text(strings_upto_count(SOUP.len(), 4) + i)
+                } else {
+                    let mut j = i;
+                    let mut s = String::new();
+                    for _ in 0..4 {
+                        s.push_str(SOUP[SOUP_READER[(j % SOUP_READER.len() as u64) as usize]]);
+                        s.push(' ');
+                        j /= SOUP_READER.len() as u64;
+                    }
+                    s.into_bytes()
+                }
+            }
             "raw-bytes" => self.raw_bytes(i),
             "compile-time-functions" => ext_grid_text(i, self.thorough),
             _ => vec![],
@@ -591,10 +610,25 @@ impl Plan {
                 }
             }
             "soup-light-entries" => {
-                let k = if self.thorough { 5 } else { 4 };
-                let base = strings_upto_count(SOUP.len(), k - 1);
-                let entries: &[Entry] = if self.thorough { LIGHT_ENTRIES } else { &[("assemble+disassemble", e_assemble), ("cldb", e_cldb), ("preprocess", e_preprocess)] };
-                run_case(st, &soup_text(base + i), entries, None, sub, true)
+                if self.thorough {
+                    let base = strings_upto_count(SOUP.len(), 4);
+                    run_case(st, &soup_text(base + i), LIGHT_ENTRIES, None, sub, true)
+                } else {
+                    // exactly 4 tokens over the 14 reader-level tokens (the keyword tokens matter to the compiler entries,
+                    // which see every sequence of <= 3 tokens over the full alphabet)
+                    let mut j = i;
+                    let mut s = String::new();
+                    for _ in 0..4 {
+                        s.push_str(SOUP[SOUP_READER[(j % SOUP_READER.len() as u64) as usize]]);
+                        s.push(' ');
+                        j /= SOUP_READER.len() as u64;
+                    }
+                    run_case(st, s.as_bytes(), &[("assemble+disassemble", e_assemble), ("cldb", e_cldb), ("preprocess", e_preprocess)], None, sub, true)
+                }
+            }
+            "ill-scoped-programs" => {
+                let t = &self.ill_scoped[i as usize];
+                run_case(st, t, &[("compile-library-entry", e_compile_lib), ("usecheck", e_usecheck), ("preprocess", e_preprocess), ("dependencies", e_dependencies), ("repl", e_repl)], None, sub, true)
             }
             "seed-replacements" => {
                 let t = &self.seed_replacements[i as usize];
